@@ -469,9 +469,9 @@ int main(int argc, char **argv) {
       printf("ini %d%s\n", r, iwxstr_ptr(ini_out));
       iwxstr_destroy(ini_out); ini_out = 0;
       free(p);
-    } else if ((!strcmp(w[0], "inis") && n == 2) || (!strcmp(w[0], "inif") && n >= 1)) {
+    } else if ((!strcmp(w[0], "inis") && n == 2) || (!strcmp(w[0], "inifile") && n == 2) || (!strcmp(w[0], "inif") && n >= 1)) {
       // modelled (Model/Ini.lean): inis <text> = iwini_parse_string; inif <fill>... = iwini_parse_stream with a reader
-      // that delivers the fills
+      // that delivers the fills; inifile <bytes> = iwini_parse_file on a stream with that content (NULs allowed)
       char *mem = 0; size_t msz = 0;
       ini_ms = open_memstream(&mem, &msz);
       ini_nev = 0;
@@ -479,6 +479,12 @@ int main(int argc, char **argv) {
       if (w[0][3] == 's') {
         size_t l; char *p = xbuf(w[1], &l, 1);
         r = iwini_parse_string(p, ini_handler2, 0);
+        free(p);
+      } else if (w[0][4] == 'i') {
+        size_t l; char *p = xbuf(w[1], &l, 0);
+        FILE *f = l ? fmemopen(p, l, "r") : fopen("/dev/null", "r");
+        r = f ? iwini_parse_file(f, ini_handler2, 0) : -1;
+        if (f) fclose(f);
         free(p);
       } else {
         struct fills f = { w + 1, n - 1, 0, 0 };
@@ -537,6 +543,14 @@ int main(int argc, char **argv) {
       printf("xprintf %s %zu ", rcname(rc), iwxstr_size(x)); print_capped(iwxstr_ptr(x), iwxstr_size(x));
       printf(" "); print_capped(pp, pp ? strlen(pp) : 0); printf("\n");
       iwpool_destroy(pool); iwxstr_destroy(x); free(p);
+    } else if (!strcmp(w[0], "ftoa2") && n == 2) {
+      // iwftoa into an exact IWNUMBUF_SIZE heap block (exploration: the length of its output depends on the value)
+      uint64_t bits = strtoull(w[1], 0, 16); double d; memcpy(&d, &bits, 8);
+      char *buf = malloc(IWNUMBUF_SIZE); memset(buf, 0xAA, IWNUMBUF_SIZE);
+      iwftoa((long double) d, buf);
+      size_t sl = strnlen(buf, IWNUMBUF_SIZE);
+      printf("ftoa2 %zu ", sl); hx_print(stdout, buf, sl); printf("\n");
+      free(buf);
     } else if (!strcmp(w[0], "strtod") && n == 2) {
       size_t l; char *p = xbuf(w[1], &l, 1);
       char *end = 0;
